@@ -4,5 +4,5 @@ CONSTANTS
   Steps = 2
 INVARIANT NonInterference
 INVARIANT NoSharedWrites
-INVARIANT RaceFree
+INVARIANT RaceFreeInv
 CHECK_DEADLOCK FALSE
